@@ -423,10 +423,12 @@ package thrift
 //@   ensures ret1 == nil ==> 1 <= ret0 && ret0 <= L
 //@   decreases maxdepth
 //@   loop 1 invariant 6 <= i && i <= L+8 && 0 <= j && j <= sz && err == nil
+//@   loop 1 invariant ksz == vs.Fixed(kt) && vsz == vs.Fixed(vt)
 //@   loop 1 invariant i <= L ==> vs.PairsLenD(B[6:], kt, vt, int(sz), maxdepth) == vs.Then(i-6, vs.PairsLenD(B[i:], kt, vt, int(sz-j), maxdepth))
 //@   loop 1 invariant i > L ==> vs.PairsLenD(B[6:], kt, vt, int(sz), maxdepth) == -1
 //@   loop 1 decreases int(sz - j)
 //@   loop 2 invariant 5 <= i && i <= L && 0 <= j && j <= sz && err == nil
+//@   loop 2 invariant vsz == vs.Fixed(vt)
 //@   loop 2 invariant vs.ElemsLenD(B[5:], vt, int(sz), maxdepth) == vs.Then(i-5, vs.ElemsLenD(B[i:], vt, int(sz-j), maxdepth))
 //@   loop 2 decreases int(sz - j)
 //@   loop 3 invariant 0 <= i && i <= L+8 && err == nil
@@ -751,13 +753,20 @@ package thrift
 //@   ensures[C17] ret != nil ==> srcWrap(ret)
 //@   assigns r.r.$u, r.r.$readlen
 
+// The stream skipper spends nesting budget slightly differently from the buffer skipper (a
+// string field of a struct goes through the recursive call and therefore needs budget), so
+// its contract is the sandwich the property states: exact agreement with the grammar at one
+// level less (Rlo), and acceptance only of what the grammar accepts at the full budget (Rhi).
+
 //@ func BufferReader.Skip
 //@   arith int
 //@   props C02, C03, C08, C17
 //@   requires !isnil(r.r)
 //@   let U = r.r.$u
-//@   let R = vs.ValLenD(U, t, 64)
-//@   ensures skipStream(R, ret, r.r, U)
+//@   let Rlo = vs.ValLenD(U, t, 63)
+//@   let Rhi = vs.ValLenD(U, t, 64)
+//@   ensures[g:hi] ret == nil ==> Rhi >= 0 && same(r.r.$u, U[Rhi:]) && rdUsed(r.r) == Rhi
+//@   ensures[g:lo] Rlo != -3 ==> skipStream(Rlo, ret, r.r, U)
 //@   ensures[C17] ret != nil ==> srcWrap(ret)
 //@   assigns r.r.$u, r.r.$readlen
 
@@ -766,19 +775,27 @@ package thrift
 //@   props C02, C03, C08, C17
 //@   requires !isnil(r.r) && 0 <= maxdepth && maxdepth <= 64
 //@   let U = r.r.$u
-//@   let R = maxdepth == 0 ? -3 : vs.ValLenD(U, t, maxdepth)
-//@   hint vs.LemmaFixedElems(U[5:], int8(U[0]), int(int32(vs.BE32(U, 1))), maxdepth)
-//@   hint vs.LemmaFixedPairs(U[6:], int8(U[0]), int8(U[1]), int(int32(vs.BE32(U, 2))), maxdepth)
-//@   ensures skipStream(R, ret, r.r, U)
+//@   let Rlo = maxdepth == 0 ? -3 : vs.ValLenD(U, t, maxdepth - 1)
+//@   let Rhi = maxdepth == 0 ? -3 : vs.ValLenD(U, t, maxdepth)
+//@   hint[g:hi] vs.LemmaFixedElems(U[5:], int8(U[0]), int(int32(vs.BE32(U, 1))), maxdepth)
+//@   hint[g:hi] vs.LemmaFixedPairs(U[6:], int8(U[0]), int8(U[1]), int(int32(vs.BE32(U, 2))), maxdepth)
+//@   hint[g:lo] vs.LemmaFixedElems(U[5:], int8(U[0]), int(int32(vs.BE32(U, 1))), maxdepth - 1)
+//@   hint[g:lo] vs.LemmaFixedPairs(U[6:], int8(U[0]), int8(U[1]), int(int32(vs.BE32(U, 2))), maxdepth - 1)
+//@   ensures[g:hi] ret == nil ==> Rhi >= 0 && same(r.r.$u, U[Rhi:]) && rdUsed(r.r) == Rhi
+//@   ensures[g:lo] Rlo != -3 ==> skipStream(Rlo, ret, r.r, U)
 //@   ensures[C17] ret != nil ==> srcWrap(ret)
 //@   assigns r.r.$u, r.r.$readlen
 //@   decreases maxdepth
 //@   loop 1 invariant 0 <= j && j <= sz && err == nil && 6 <= rdUsed(r.r) && rdUsed(r.r) <= len(U) && same(r.r.$u, U[rdUsed(r.r):])
-//@   loop 1 invariant vs.PairsLenD(U[6:], kt, vt, sz, maxdepth) == vs.Then(rdUsed(r.r) - 6, vs.PairsLenD(r.r.$u, kt, vt, sz - j, maxdepth))
+//@   loop 1 invariant ksz == vs.Fixed(kt) && vsz == vs.Fixed(vt)
+//@   loop 1 invariant[g:hi] vs.PairsLenD(U[6:], kt, vt, sz, maxdepth) == vs.Then(rdUsed(r.r) - 6, vs.PairsLenD(r.r.$u, kt, vt, sz - j, maxdepth))
+//@   loop 1 invariant[g:lo] maxdepth > 1 && vs.PairsLenD(U[6:], kt, vt, sz, maxdepth - 1) != -3 ==> vs.PairsLenD(U[6:], kt, vt, sz, maxdepth - 1) == vs.Then(rdUsed(r.r) - 6, vs.PairsLenD(r.r.$u, kt, vt, sz - j, maxdepth - 1))
 //@   loop 1 decreases sz - j
 //@   loop 2 invariant 0 <= j && j <= sz && err == nil && 5 <= rdUsed(r.r) && rdUsed(r.r) <= len(U) && same(r.r.$u, U[rdUsed(r.r):])
-//@   loop 2 invariant vs.ElemsLenD(U[5:], vt, sz, maxdepth) == vs.Then(rdUsed(r.r) - 5, vs.ElemsLenD(r.r.$u, vt, sz - j, maxdepth))
+//@   loop 2 invariant[g:hi] vs.ElemsLenD(U[5:], vt, sz, maxdepth) == vs.Then(rdUsed(r.r) - 5, vs.ElemsLenD(r.r.$u, vt, sz - j, maxdepth))
+//@   loop 2 invariant[g:lo] maxdepth > 1 && vs.ElemsLenD(U[5:], vt, sz, maxdepth - 1) != -3 ==> vs.ElemsLenD(U[5:], vt, sz, maxdepth - 1) == vs.Then(rdUsed(r.r) - 5, vs.ElemsLenD(r.r.$u, vt, sz - j, maxdepth - 1))
 //@   loop 2 decreases sz - j
 //@   loop 3 invariant 0 <= rdUsed(r.r) && rdUsed(r.r) <= len(U) && same(r.r.$u, U[rdUsed(r.r):])
-//@   loop 3 invariant vs.FieldsLenD(U, maxdepth) == vs.Then(rdUsed(r.r), vs.FieldsLenD(r.r.$u, maxdepth))
+//@   loop 3 invariant[g:hi] vs.FieldsLenD(U, maxdepth) == vs.Then(rdUsed(r.r), vs.FieldsLenD(r.r.$u, maxdepth))
+//@   loop 3 invariant[g:lo] maxdepth > 1 && vs.FieldsLenD(U, maxdepth - 1) != -3 ==> vs.FieldsLenD(U, maxdepth - 1) == vs.Then(rdUsed(r.r), vs.FieldsLenD(r.r.$u, maxdepth - 1))
 //@   loop 3 decreases len(r.r.$u)
